@@ -52,6 +52,13 @@ Theorem C06_compute_all_keeps_configuration :
 Proof. intros f H. pose proof compute_all_all as A. rewrite forallb_forall in A. exact (A f H). Qed.
 Print Assumptions C06_compute_all_keeps_configuration.
 
+(* 3c. The configuration part of __init__ of all ten classes (everything except the _compute_all run) touches no global mutable
+       state: module-level objects that any function of their module mutates, rebinds or leaks un-copied, generators, mutable
+       defaults.  (In-place updates of an argument array by an entry point are `arg:` atoms of its footprint and fail (2).) *)
+Theorem C06_init_touches_no_global : forall f, In f all_filters -> init_ok f = true.
+Proof. intros f H. pose proof init_all as A. rewrite forallb_forall in A. exact (A f H). Qed.
+Print Assumptions C06_init_touches_no_global.
+
 (* 4. Non-interference, over the store semantics of the effect language with UNINTERPRETED value functions (mix, wr, gl, test,
       count): if the checker accepts entry point u of filter f (allowing the global state G and the extra attributes E) then,
       in two worlds that agree on instance i's configuration + carried state (+ E, G), the call returns the same value and the
